@@ -407,6 +407,8 @@ def expr_text(e: Any) -> str:
         return ",".join(expr_text(x) for x in e)
     k = e.get("k")
     if k == "lit":
+        if e["t"] == "bool":
+            return "true" if e["v"] else "false"
         return str(e["v"]) if e["t"] != "str" else json.dumps(e["v"])
     if k == "path":
         return e["p"]
